@@ -146,10 +146,18 @@ MAX_EXC_TAG = 21
 def user_exc(tag, in_coroutine=False, driver="sync"):
     """the exception class is a function of the tag (1..21), so a scenario replays exactly"""
     k = EXC_KINDS[tag % len(EXC_KINDS)]
-    if k in (UserKeyboardInterrupt, UserSystemExit) and driver not in ("sync", "facade"):
+    if k in (UserKeyboardInterrupt, UserSystemExit):
         # inside a running loop asyncio stops the loop itself with these two: no caller of `await sm.send()` is left
-        # to observe anything
-        return UserBaseExc(tag)
+        # to observe anything. (A world may run a "sync"/"facade" scenario inside its own loop: what counts is the
+        # loop that is running *now* — none, or the library's own cached loop of the synchronous facade.)
+        try:
+            loop = asyncio.get_running_loop()
+        except RuntimeError:
+            loop = None
+        import statemachine.utils as _u
+        own = getattr(_u._cached_loop, "loop", None) if hasattr(_u, "_cached_loop") else None
+        if driver not in ("sync", "facade") or (loop is not None and loop is not own):
+            return UserBaseExc(tag)
     if isinstance(k, str):
         return _lib_exc(k)(tag)
     if in_coroutine and k is UserStopIteration:
